@@ -913,6 +913,23 @@ func (v *Verifier) evalCall(env *Env, e *Expr) *Val {
 		id := UF("fn$"+fn.String(), SInt)
 		return boolVal(And(Neq(a.Term, IntLit(0)), Or(Eq(UF("closurefn", SInt, a.Term), id), Eq(a.Term, id))))
 	case "closurevar":
+		if len(args) == 3 {
+			// closurevar(f, "pkg.Func$2", "name"): the captured variable of that name (typed)
+			fn := v.P.Funcs[args[1].Lit]
+			if fn == nil {
+				unsupportedf("closurevar: unknown function %s", args[1].Lit)
+			}
+			for bi, fvr := range fn.FreeVars {
+				if fvr.Name() == args[2].Lit {
+					ft := pointee(fvr.Type())
+					if ft == nil || shapeOf(ft) != shLeaf {
+						unsupportedf("closurevar: captured variable %s is not a scalar", args[2].Lit)
+					}
+					return &Val{T: ft, Term: UF(closureVarFn(bi, leafSort(ft)), leafSort(ft), arg(0).Term)}
+				}
+			}
+			unsupportedf("closurevar: %s captures no variable %s", args[1].Lit, args[2].Lit)
+		}
 		idx, _ := strconv.Atoi(args[1].Lit)
 		return &Val{T: types.Typ[types.UnsafePointer], Term: UF(fmt.Sprintf("closurevar$%d", idx), SInt, arg(0).Term)}
 	case "jsondecval":
@@ -1094,6 +1111,14 @@ func (v *Verifier) ghostFieldSort(ns *types.Named, name string) (Sort, types.Typ
 		}
 	}
 	return SInt, rt
+}
+
+// closureVarFn: name of the function giving a closure's idx-th captured value (one per sort).
+func closureVarFn(idx int, s Sort) string {
+	if s == SInt {
+		return fmt.Sprintf("closurevar$%d", idx)
+	}
+	return fmt.Sprintf("closurevar$%d$%s", idx, sanitize(string(s)))
 }
 
 func leafSortOK(t types.Type, s Sort) bool {
